@@ -68,6 +68,11 @@ def strategy_(draw, tier):
         b.chain(name, draw(elements()))
     b.fix_majority()
     g = {"nodes": b.nodes, "links": b.links}
+    # a graph of a sub-region keeps the original offsets: reference coordinates need not start at 0
+    for c in b.chroms:
+        off = draw(st.sampled_from([0, 0, 95, 9990, 99999995]))
+        for n in c["ref"]:
+            g["nodes"][n]["so"] += off
     k = draw(st.integers(1, nchrom))
     order = list(draw(st.permutations(names)))[:k]
     stale = {}
@@ -198,6 +203,9 @@ def run_case(case):
         pass
     if any(l[1] != l[3] for l in links):
         classes.add("inverted_link")
+    so_ = [d["so"] for d in nodes.values() if d["sr"] == 0]
+    if so_ and len(str(min(so_))) != len(str(max(so_))) and min(so_) > 0:
+        classes.add("reference_offsets_cross_a_power_of_ten")
     classes.add("by_chrom" if case["by_chrom"] else "complete")
     classes.add("via:" + case.get("via", "api"))
     if case.get("real_window"):
